@@ -14,6 +14,7 @@ from chameleon.codegen import reverse_builtin_map
 from chameleon.codegen import template
 from chameleon.compiler import Interpolator
 from chameleon.exc import ExpressionError
+from chameleon.exc import UnknownExpressionType
 from chameleon.parser import substitute
 from chameleon.tokenize import Token
 from chameleon.utils import ImportableMarker
@@ -530,15 +531,17 @@ class ExpressionParser:
         m = match_prefix(expression)
         if m is not None:
             prefix = m.group(1)
+            token = expression[m.start(1):m.end(1)]
             expression = expression[m.end():]
         else:
             prefix = self.default
+            token = expression
 
         try:
             factory = self.factories[prefix]
         except KeyError as exc:
-            raise LookupError(
-                "Unknown expression type: %s." % str(exc)
+            raise UnknownExpressionType(
+                "Unknown expression type: %s." % str(exc), token
             )
 
         return factory(expression)
